@@ -151,6 +151,24 @@ class Check:
         self.obligation("no-axioms-no-admits:" + engine, ok, "; ".join(bad[:5]))
         return ok
 
+    def gen(self, engine: str, timeout: int = 300) -> bool:
+        """Run the engine's translator(s) (coq/<engine>/gen.py) against /repo's current source; fail closed."""
+        d = COQ / engine
+        rc, out = sh([PY, "gen.py"], timeout=timeout, cwd=d, env=exo_env(hooks=False))
+        ok = rc == 0
+        self.obligation("translator:" + engine, ok, "" if ok else out[-600:])
+        if not ok:
+            self.log("translator of %s failed: %s" % (engine, out[-400:]))
+        return ok
+
+    def extract(self, engine: str, timeout: int = 600) -> bool:
+        d = COQ / engine
+        rc, out = sh(["bash", "extract.sh"], timeout=timeout, cwd=d)
+        if rc != 0:
+            self.broken_obligation("extraction-build:" + engine, out[-600:])
+            self.log("extraction build of %s failed: %s" % (engine, out[-400:]))
+        return rc == 0
+
     def coq_build(self, engine: str, timeout: int = 1500, jobs: int = 16) -> bool:
         """Full .vo build of /verif/coq/<engine> (coq_makefile project).  Records one obligation per
         theorem in Props*.v and the Print Assumptions output found in the build log."""
